@@ -11,6 +11,12 @@ let int_of_n = function N0 -> 0 | Npos p -> int_of_pos p
 let int_of_z = function Z0 -> 0 | Zpos p -> int_of_pos p | Zneg p -> - (int_of_pos p)
 let rec nat_of_int i = if i <= 0 then O else S (nat_of_int (i-1))
 
+(* strings: dot-separated code points ("-" empty); lists of strings ';'-separated ("_" empty list) *)
+let str_of s = if s = "-" then [] else List.map (fun x -> n_of_int (int_of_string x)) (String.split_on_char '.' s)
+let show_str l = if l = [] then "-" else String.concat "." (List.map (fun c -> string_of_int (int_of_n c)) l)
+let strs_of s = if s = "_" then [] else List.map str_of (String.split_on_char ';' s)
+let show_strs l = if l = [] then "_" else String.concat ";" (List.map show_str l)
+
 let split c s = if s = "_" || s = "" then [] else String.split_on_char c s
 
 let run line =
@@ -37,6 +43,9 @@ let run line =
        let t = String.concat "|" (List.map (fun (_, st) ->
                  Printf.sprintf "%d;%d;%d" (int_of_z st.uses) (int_of_z st.score) (int_of_z st.cx)) u') in
        "OK " ^ s ^ " " ^ (if t = "" then "_" else t))
+  | "Q" -> show_strs (sort_str (strs_of f.(1)))
+  | "M" -> show_strs (metavars_in_order (strs_of f.(1)) (strs_of f.(2)))
+  | "U" -> show_strs (unlink_all (strs_of f.(1)) (strs_of f.(2)))
   | _ -> "?"
 
 let () =
